@@ -151,7 +151,7 @@ def _store_sites(repo: Repo, L, ck):
             if isinstance(f, ast.Attribute) and f.attr == "add_sample":
                 roles = {}
                 if any(kw.arg is None for kw in c.keywords) or any(isinstance(a, ast.Starred) for a in c.args):
-                    c = _splat_read(cfg, L, nid, c)       # `add_sample(**transition)` / `add_sample(*sample)`: the arguments the display provides
+                    c = _splat_read(cfg, L, nid, c, repo, fn_mod)       # `add_sample(**transition)` / `add_sample(*sample)`: the arguments the display provides
                 if c.keywords and not c.args:
                     for kw in c.keywords:
                         if kw.arg in ROLE_OF:
@@ -183,7 +183,39 @@ def _store_sites(repo: Repo, L, ck):
     return sites
 
 
-def _splat_read(cfg, L, at, call):
+def _record_as_dict(cfg, L, at, e, repo, fn_mod):
+    """`r._asdict()` where `r` is bound once to a constructor call `R(a, b, ...)` of a NamedTuple / dataclass class of the package (no starred
+    arguments, every field given): (the equivalent dict display {field: argument}, node of the constructor call).  None: not this form."""
+    if not (isinstance(e, ast.Call) and isinstance(e.func, ast.Attribute) and e.func.attr == "_asdict" and not e.args and not e.keywords
+            and isinstance(e.func.value, ast.Name)) or repo is None:
+        return None
+    nm = e.func.value.id
+    ds = cfg.defs_of(at, nm)
+    n_defs = sum(1 for n in cfg.nodes for x in n.defs if x.name == nm)
+    if len(ds) != 1 or ds[0].kind != "assign" or n_defs != 1 or not isinstance(ds[0].value, ast.Call) or any(nm in n.mutates for n in cfg.nodes):
+        return None
+    ctor = ds[0].value
+    if not isinstance(ctor.func, (ast.Name, ast.Attribute)) or any(isinstance(a, ast.Starred) for a in ctor.args) or any(kw.arg is None for kw in ctor.keywords):
+        return None
+    q = repo.resolve_expr(fn_mod, ctor.func)
+    if not q or not repo.has(q):
+        return None
+    from ..nf import NF
+    fields = NF._record_fields(repo.lookup(q)[1])
+    if not fields or len(ctor.args) > len(fields):
+        return None
+    bound = dict(zip(fields, ctor.args))
+    for kw in ctor.keywords:
+        if kw.arg not in fields or kw.arg in bound:
+            return None
+        bound[kw.arg] = kw.value
+    if set(bound) != set(fields):
+        return None                                  # a field left at its default: not read
+    d = ast.copy_location(ast.Dict(keys=[ast.Constant(value=f) for f in fields], values=[bound[f] for f in fields]), e)
+    return d, ds[0].node
+
+
+def _splat_read(cfg, L, at, call, repo=None, fn_mod=None):
     """`f(**d)` / `f(*t)` where `d` is a dict display with constant keys / `t` a tuple display (given in the call or bound once to a variable that is not changed
     afterwards, every name in it having the same reaching definitions at the display as at the call): the equivalent call with explicit
     keywords.  Anything else is not read."""
@@ -193,6 +225,9 @@ def _splat_read(cfg, L, at, call):
             kws.append(kw)
             continue
         d, d_at = kw.value, at
+        rec = _record_as_dict(cfg, L, at, d, repo, fn_mod)
+        if rec is not None:
+            d, d_at = rec                            # `f(**record._asdict())`: the fields of the record, by name
         if isinstance(d, ast.Name):
             nm = d.id
             ds = cfg.defs_of(at, nm)
@@ -2480,6 +2515,10 @@ _RB_ADAPT = ("        self.adaptive = []\n        self.buffer = OrderedDict()\n 
 _RB_ALLOC_ADAPT = ("                if k in self.adaptive:\n                    kind = np.asarray(v).dtype\n                else:\n                    kind = self.buffer[k].dtype\n"
                    "                self.buffer[k] = np.empty((self.buffer_size,) + np.asarray(v).shape, dtype=kind)\n")
 MUTANTS = [
+    # the same record with the observation in the place of its successor
+    {"id": "c01-dqn-record-asdict-next-is-obs", "file": "rl_blox/algorithm/dqn.py", "rule": "R", "edits": [
+        ("from ..logging.logger import LoggerBase\n", "from ..logging.logger import LoggerBase\nimport typing\n\n\nclass _Transition(typing.NamedTuple):\n    observation: typing.Any\n    action: typing.Any\n    reward: typing.Any\n    next_observation: typing.Any\n    termination: typing.Any\n"),
+        ("        replay_buffer.add_sample(\n            observation=obs,\n            action=action,\n            reward=reward,\n            next_observation=next_obs,\n            termination=terminated,\n        )\n", "        transition = _Transition(obs, action, reward, obs, terminated)\n        replay_buffer.add_sample(**transition._asdict())\n")]},
     {"id": "c01-td3-device-copy-not-refreshed-at-reset", "file": _TD3, "rule": "R4", "edits": [('    obs, _ = env.reset(seed=seed)\n', '    obs, _ = env.reset(seed=seed)\n    obs_dev = jnp.asarray(obs)\n'), ('_sample_actions(policy, jnp.asarray(obs), action_key)', '_sample_actions(policy, obs_dev, action_key)'), ('        next_obs, reward, termination, truncated, info = env.step(action)\n', '        next_obs, reward, termination, truncated, info = env.step(action)\n        obs_dev = jnp.asarray(next_obs)\n')]},
     {"id": "c01-td3-carry-before-store", "file": _TD3, "rule": "R2",
      "find": "        steps_per_episode += 1\n        accumulated_reward += reward\n\n        replay_buffer.add_sample(",
@@ -2545,6 +2584,10 @@ MUTANTS = [
     {"id": "c01-replay-buffer-float-columns-typed-by-first-value", "file": _RB, "rule": "R6", "nth": 0, "edits": [(_RB_INIT, _RB_ADAPT % "t is float"), (_RB_ALLOC, _RB_ALLOC_ADAPT)]},
 ]
 BENIGN = [
+    # the transition carried in a class-based NamedTuple and handed over as `**record._asdict()`: the fields of the record, by name
+    {"id": "c01-b-dqn-record-asdict", "file": "rl_blox/algorithm/dqn.py", "edits": [
+        ("from ..logging.logger import LoggerBase\n", "from ..logging.logger import LoggerBase\nimport typing\n\n\nclass _Transition(typing.NamedTuple):\n    observation: typing.Any\n    action: typing.Any\n    reward: typing.Any\n    next_observation: typing.Any\n    termination: typing.Any\n"),
+        ("        replay_buffer.add_sample(\n            observation=obs,\n            action=action,\n            reward=reward,\n            next_observation=next_obs,\n            termination=terminated,\n        )\n", "        transition = _Transition(obs, action, reward, next_obs, terminated)\n        replay_buffer.add_sample(**transition._asdict())\n")]},
     {"id": "c01-b-td3-device-copy-refreshed-at-reset", "file": _TD3, "edits": [('    obs, _ = env.reset(seed=seed)\n', '    obs, _ = env.reset(seed=seed)\n    obs_dev = jnp.asarray(obs)\n'), ('_sample_actions(policy, jnp.asarray(obs), action_key)', '_sample_actions(policy, obs_dev, action_key)'), ('        next_obs, reward, termination, truncated, info = env.step(action)\n', '        next_obs, reward, termination, truncated, info = env.step(action)\n        obs_dev = jnp.asarray(next_obs)\n'), ('            obs, _ = env.reset()\n', '            obs, _ = env.reset()\n            obs_dev = jnp.asarray(obs)\n')]},
     {"id": "c01-b-ddpg-elif-not-truncated", "file": "rl_blox/algorithm/ddpg.py", "find": "        else:\n            obs = next_obs\n\n    return namedtuple(\n        \"DDPGResult\"", "replace": "        elif not truncated:\n            obs = next_obs\n\n    return namedtuple(\n        \"DDPGResult\""},
     {"id": "c01-b-td3-ifexp-carry", "file": _TD3, "find": "        else:\n            obs = next_obs\n\n        bar.update()", "replace": "        else:\n            obs = np.asarray(next_obs)\n\n        bar.update()"},
